@@ -433,7 +433,7 @@ func (c *Ctx) checkDispatchGate(r *Report, match *ssa.Function) {
 	}
 	e := m.clientExplorer()
 	deliverEvent(e)
-	outs := e.Explore(m.snDisp, map[string]aval{"type:sn": kstr("*packets1.Pubrel"), "type:tx": kstr("*client.brokerPublishQOS2Transaction")}, nil)
+	outs := e.Explore(m.snDisp, map[string]aval{"type:sn": kstr("*packets1.Pubrel"), "type:tx": kstr(c.clBrokerPub2Tx())}, nil)
 	okc := false
 	for _, o := range outs {
 		for _, ev := range eventsWithPrefix(o, "deliver(") {
